@@ -5,6 +5,7 @@ use vstd::std_specs::iter::IteratorSpec;
 verus! {
 //@ include prelude/base.rs
 //@ include spec/lex.rs
+//@ include prelude/std_ext.rs
 //@ include prelude/cosmwasm.rs
 //@ include contracts/repo_types.rs
 //@ include prelude/router_traits.rs
